@@ -5,3 +5,31 @@ package adjustments
 // Assumed contract of the Adjustment interface: no effect on the state tracked in core/sync.
 
 //@ func (Adjustment).Do
+
+// PLL discipline. State invariant (requires and ensures): mode in 0..3, gains in [0,1], stored times within the
+// assumed clock range. The accumulated frequency l.i is a running sum: it is required to be bounded by 1e300 on
+// entry (finiteness over unbounded histories cannot be an invariant) and shown finite where it is handed out.
+//@ pred pllOK(l) = l != nil && l.clk != nil && l.log != nil && l.mode <= 3 && 0.0 <= l.a && l.a <= 1.0 && 0.0 <= l.b && l.b <= 1.0 &&
+//@ |   (l.mode >= 1 ==> 0 <= l.t0.Unix() && l.t0.Unix() <= 8589934592 && 0 <= l.t.Unix() && l.t.Unix() <= 8589934592)
+
+//@ func (*Pll).Do
+//@   requires pllOK(l)
+//@   requires -1e300 <= weight && weight <= 1e300
+//@   requires -1e300 <= l.i && l.i <= 1e300
+//@   entry offset0 := offset
+//@   entry mode0 := l.mode
+//@   maypanic "unexpected clock behavior"
+//@   modifies l.epoch, l.mode, l.t0, l.t, l.a, l.b, l.i
+//@   callsite l.clk.Step 0 requires mode0 == 1 && l.mode == 1 && mdt > 2000000000 && weight > 3 && offset.Abs() > 1000000
+//@   callsite l.clk.Step 0 requires offset0 != -9223372036854775808 ==> timemath.Inv(offset) == offset0
+//@   callsite l.clk.Step 0 requires calls("SystemClock.Step") == old(calls("SystemClock.Step")) && calls("SystemClock.Adjust") == old(calls("SystemClock.Adjust"))
+//@   callsite l.clk.Adjust 0 requires mode0 == 3 && l.mode == 3 && calls("SystemClock.Step") == old(calls("SystemClock.Step"))
+//@   callsite l.clk.Adjust 0 requires d >= 1.0
+//@   callsite l.clk.Adjust 0 requires p <= d*500e-6 && p >= d*-500e-6
+//@   callsite l.clk.Adjust 0 requires isfinite(d)
+//@   callsite l.clk.Adjust 0 requires isfinite(p)
+//@   callsite l.clk.Adjust 0 requires isfinite(l.i)
+//@   callsite l.clk.Adjust 0 requires timemath.Duration(d) > 0
+//@   ensures ok: pllOK(l)
+//@   ensures restart: old(l.epoch) != l.epoch ==> l.mode == 1 && calls("SystemClock.Step") == old(calls("SystemClock.Step")) && calls("SystemClock.Adjust") == old(calls("SystemClock.Adjust"))
+//@   ensures modes: l.mode == mode0 || l.mode == mode0+1 || l.mode == 1
